@@ -51,6 +51,21 @@ class _FakeResource:
         self.raised += 1
 
 
+CPUS = [16]
+
+
+class _CpuCount:
+    @staticmethod
+    def cpu_count():
+        return CPUS[0]
+
+
+def _open_with_fake_proc_status(path, *args, **kwargs):
+    if path == "/proc/self/status":
+        return io.StringIO(f"Name:\tcutadapt\nCpus_allowed:\t{(1 << CPUS[0]) - 1:x}\nCpus_allowed_list:\t0-{CPUS[0] - 1}\n")
+    return open(path, *args, **kwargs)
+
+
 class _TtyStderr(io.StringIO):
     """Standard error that is a terminal. The animated progress line ('\\r[...]' updates and the
     newline that ends it) is kept apart from everything else written to it."""
@@ -101,6 +116,9 @@ def install():
     files.xopen = simfs.sim_xopen
     files.resource = _FakeResource()
     simfs.RESOURCE = files.resource
+    # the number of CPUs the process may run on (cpuset / affinity of a cluster job or container)
+    utils.multiprocessing = _CpuCount()
+    utils.open = _open_with_fake_proc_status
     ft = _FakeTime()
     cli.time = ft
     adapters.time = ft
@@ -225,6 +243,7 @@ def run_sim(argv, files, chooser, capacity=65536, feeder=True, step_cap=K.STEP_C
     res_ = _mods["files"].resource
     res_.soft, res_.hard, res_.raised = 1024, 4096, 0
     simfs.begin_run(env)
+    CPUS[0] = env.get("cpus") or 16
     _mods["time"].t = 0.0
     root = logging.getLogger()
     saved_handlers, saved_level = root.handlers[:], root.level
